@@ -249,13 +249,13 @@ def graph_eval(circuit, assign, gate_fn, inv_fn, zero, override=None):
         if li in busy: raise ValueError('combinational loop')
         busy.add(li)
         d = line.driver
-        if is_state(d.kind) or (d.index in io):
+        if is_state(d.kind) or (d.index in io and not any(x is not None for x in d.ins)):
             # an interface node: all outputs carry the assigned value, 2nd output of a flip-flop inverted
             v = assign[d.index]
-            if 'dff' in d.kind.lower() and line.driver_pin == 1:
+            if 'dff' in d.kind.lower() and line.driver_pin == 1 and v is not None:
                 v = inv_fn(v)
         elif d.kind == '__fork__':
-            v = line_val(d.ins[0]) if len(d.ins) > 0 and d.ins[0] is not None else zero
+            v = line_val(d.ins[0]) if len(d.ins) > 0 and d.ins[0] is not None else (zero if d.index not in io else assign.get(d.index, zero))
         else:
             pins = [None if l is None else line_val(l) for l in d.ins]
             v = gate_fn(d.kind, pins)
